@@ -1,7 +1,7 @@
 //! C02, C06, C07, C14, C17: value / location / action-order semantics on compiled parsers
 //! (Impl-R), both backends, against the `sem` oracle of dg.rs.
 
-use crate::dg::{self, DAlt, DG, Expect, Style};
+use crate::dg::{self, DAlt, DG, Expect, NtKind, Style};
 use crate::drv::{self, GenOpts};
 use crate::fw::{CheckDef, Ctx, Tier};
 use crate::gram::{self, Algo, Cfg, Codegen, Sym};
@@ -37,7 +37,7 @@ pub fn defs() -> Vec<CheckDef> {
         crash_class: Some("parser"),
     };
     vec![
-        mk("C02", "reduced F-cfg skeletons (size <= S) x action-style assignments (named / anonymous / <> / <X> selections / mut / default actions), rotated diagonally through each alternative's style menu (thorough: more rotations), compiled with both backends, all inputs <= n; oracle: value string and action log computed by sem over the unique derivation tree. distinct_nontrivial = accepted (grammar, input) pairs whose tree has >= 2 nodes with user actions", "accepted_multi_action", &["parses", "accepted", "accepted_multi_action", "default_action_nodes"], run_c02),
+        mk("C02", "reduced F-cfg skeletons (size <= S) x action-style assignments (named / anonymous / <> / <X> selections / mut / default actions; plus, per non-pub nonterminal, a `()`-typed variant and a tuple-valued variant without actions bound by `<(a, b):N>` patterns), rotated diagonally through each alternative's style menu (thorough: more rotations), compiled with both backends, all inputs <= n; oracle: value string and action log computed by sem over the unique derivation tree. distinct_nontrivial = accepted (grammar, input) pairs whose tree has >= 2 nodes with user actions", "accepted_multi_action", &["parses", "accepted", "accepted_multi_action", "default_action_nodes", "tuple_default_nodes", "unit_default_nodes"], run_c02),
         mk("C06", "skeletons with @L/@R marks at every gap layout (all-@L, all-@R, <l:@L>..<r:@R>, alternating) x inline subsets, both backends, gapped token spans (10i+3,10i+7); oracle: sem location rules. distinct_nontrivial = accepted pairs whose tree has an empty derivation, a mark fallback or an inlined node", "accepted_nontrivial_loc", &["parses", "accepted", "accepted_nontrivial_loc"], run_c06),
         mk("C07", "unit, value-building, location-capturing and fallible renderings of the skeletons, each compiled table-driven and recursive-ascent, all inputs <= n (accepted and rejected); oracle: equal result (value / error variant, token, location, user error). distinct_nontrivial = (grammar, input) pairs compared whose result is an error or a non-unit value", "pairs_nontrivial", &["pairs_compared", "pairs_nontrivial", "pairs_rejected_input"], run_c07),
         mk("C14", "skeletons x all non-empty subsets of inlinable nonterminals (non-recursive, non-pub) x {named, fallible} actions, vs the same grammar without #[inline], whenever both are conflict-free; oracle: same value / user error, and the action log predicted by sem (inlined actions deferred to just before their host's action, left to right). distinct_nontrivial = (grammar, subset, input) cases with an inlined node in the tree", "cases_with_inlined_node", &["parses", "cases_with_inlined_node", "inline_variants"], run_c14),
@@ -164,8 +164,37 @@ fn items_for(prop: Prop, tier: Tier, f: &mut dyn FnMut(Item)) {
             skeletons(s, &mut |g| {
                 for r in 0..rots {
                     group += 1;
-                    let dgm = DG { skel: g.clone(), inline: vec![false; g.nts], alts: rotate_styles(g, r, false), mark_term: None };
+                    let dgm = DG { skel: g.clone(), inline: vec![false; g.nts], alts: rotate_styles(g, r, false), mark_term: None, kinds: vec![] };
                     f(Item { dg: dgm, tag: format!("rot{}", r), group, backends: both.clone(), with_injection: false });
+                }
+                // documented defaults without any action: a nonterminal whose value is the tuple of
+                // its symbols (bound by `<(a, b):N>` in named alternatives), and a `()`-typed one
+                let inl = inlinable(g);
+                for n in 0..g.nts {
+                    if g.pubs.contains(&n) {
+                        continue;
+                    }
+                    let mut kinds_list: Vec<NtKind> = vec![NtKind::Unit];
+                    if inl.contains(&n) && g.alts[n].len() == 1 && (2..=3).contains(&g.alts[n][0].len()) {
+                        kinds_list.push(NtKind::Tuple);
+                    }
+                    for k in kinds_list {
+                        group += 1;
+                        let mut kinds = vec![NtKind::Value; g.nts];
+                        kinds[n] = k;
+                        let mut alts = rotate_styles(g, group, false);
+                        for (m, a) in alts.iter_mut().enumerate() {
+                            for (ai, d) in a.iter_mut().enumerate() {
+                                // `<>` / default selections over a child that is not a plain value
+                                // would test the harness's own conversion helpers: name them instead
+                                if g.alts[m][ai].contains(&Sym::N(n as u8)) && !matches!(d.style, Style::Named | Style::Mut | Style::Anon) {
+                                    d.style = Style::Named;
+                                }
+                            }
+                        }
+                        let dgm = DG { skel: g.clone(), inline: vec![false; g.nts], alts, mark_term: None, kinds };
+                        f(Item { dg: dgm, tag: format!("kind-{:?}-N{}", k, n), group, backends: both.clone(), with_injection: false });
+                    }
                 }
             });
         }
@@ -175,7 +204,7 @@ fn items_for(prop: Prop, tier: Tier, f: &mut dyn FnMut(Item)) {
             gram::enum_fopt(&mut |g| {
                 for layout in 0..5 {
                     group += 1;
-                    let dgm = DG { skel: g.clone(), inline: vec![false; g.nts], alts: mark_layout(g, layout), mark_term: None };
+                    let dgm = DG { skel: g.clone(), inline: vec![false; g.nts], alts: mark_layout(g, layout), mark_term: None, kinds: vec![] };
                     f(Item { dg: dgm, tag: format!("fopt-layout{}", layout), group, backends: both.clone(), with_injection: false });
                 }
             });
@@ -198,7 +227,7 @@ fn items_for(prop: Prop, tier: Tier, f: &mut dyn FnMut(Item)) {
                         for &n in &sub {
                             inline[n] = true;
                         }
-                        let dgm = DG { skel: g.clone(), inline, alts: mark_layout(g, layout), mark_term: None };
+                        let dgm = DG { skel: g.clone(), inline, alts: mark_layout(g, layout), mark_term: None, kinds: vec![] };
                         f(Item { dg: dgm, tag: format!("layout{}-inl{:?}", layout, sub), group, backends: both.clone(), with_injection: false });
                     }
                 }
@@ -223,7 +252,7 @@ fn items_for(prop: Prop, tier: Tier, f: &mut dyn FnMut(Item)) {
                                 inline[n] = true;
                             }
                         }
-                        let dgm = DG { skel: g.clone(), inline, alts: alts.clone(), mark_term };
+                        let dgm = DG { skel: g.clone(), inline, alts: alts.clone(), mark_term, kinds: vec![] };
                         f(Item { dg: dgm, tag: format!("v{}-mask{}", variant, mask), group, backends: vec![Codegen::Table], with_injection: false });
                     }
                 }
@@ -250,7 +279,7 @@ fn items_for(prop: Prop, tier: Tier, f: &mut dyn FnMut(Item)) {
                             inline[n] = true;
                         }
                     }
-                    let dgm = DG { skel: g.clone(), inline, alts, mark_term: Some(g.terms as u8 - 1) };
+                    let dgm = DG { skel: g.clone(), inline, alts, mark_term: Some(g.terms as u8 - 1), kinds: vec![] };
                     f(Item { dg: dgm, tag: format!("fall-rot{}", r), group, backends: both.clone(), with_injection: true });
                 }
             });
@@ -258,7 +287,7 @@ fn items_for(prop: Prop, tier: Tier, f: &mut dyn FnMut(Item)) {
             crate::checks::core::enum_frec(tier.pick(4, 5), &mut |g| {
                 group += 1;
                 let alts: Vec<Vec<DAlt>> = g.alts.iter().map(|a| a.iter().map(|rhs| DAlt { style: if rhs.contains(&Sym::Err) { Style::Anon } else { Style::Fallible }, marks: vec![] }).collect()).collect();
-                let dgm = DG { skel: g.clone(), inline: vec![false; g.nts], alts, mark_term: Some(g.terms as u8 - 1) };
+                let dgm = DG { skel: g.clone(), inline: vec![false; g.nts], alts, mark_term: Some(g.terms as u8 - 1), kinds: vec![] };
                 f(Item { dg: dgm, tag: "frec".into(), group, backends: vec![Codegen::Table], with_injection: true });
             });
         }
@@ -267,14 +296,14 @@ fn items_for(prop: Prop, tier: Tier, f: &mut dyn FnMut(Item)) {
             gram::enum_fopt(&mut |g| {
                 for (k, alts) in [rotate_styles(g, 0, false), mark_layout(g, 2), mark_layout(g, 0), mark_layout(g, 4)].into_iter().enumerate() {
                     group += 1;
-                    let dgm = DG { skel: g.clone(), inline: vec![false; g.nts], alts, mark_term: None };
+                    let dgm = DG { skel: g.clone(), inline: vec![false; g.nts], alts, mark_term: None, kinds: vec![] };
                     f(Item { dg: dgm, tag: format!("fopt-kind{}", k), group, backends: both.clone(), with_injection: false });
                 }
             });
             skeletons(s, &mut |g| {
                 for (k, alts) in [rotate_styles(g, 0, false), rotate_styles(g, 1, true), mark_layout(g, 2), mark_layout(g, 0)].into_iter().enumerate() {
                     group += 1;
-                    let dgm = DG { skel: g.clone(), inline: vec![false; g.nts], alts, mark_term: if k == 1 { Some(g.terms as u8 - 1) } else { None } };
+                    let dgm = DG { skel: g.clone(), inline: vec![false; g.nts], alts, mark_term: if k == 1 { Some(g.terms as u8 - 1) } else { None }, kinds: vec![] };
                     f(Item { dg: dgm, tag: format!("kind{}", k), group, backends: both.clone(), with_injection: k == 1 });
                 }
             });
@@ -462,6 +491,12 @@ fn process_chunk(ctx: &mut Ctx, prop: Prop, dir: &Path, items: &[Item], n: usize
                     if tree_has_default(dgm, tree.as_ref().unwrap()) {
                         ctx.count("default_action_nodes");
                     }
+                    if tree_has_kind(dgm, tree.as_ref().unwrap(), NtKind::Tuple) {
+                        ctx.count("tuple_default_nodes");
+                    }
+                    if tree_has_kind(dgm, tree.as_ref().unwrap(), NtKind::Unit) {
+                        ctx.count("unit_default_nodes");
+                    }
                     if o.value != e.value || !o.is_ok() {
                         ctx.violation(&format!("{}-wrong-value", cg.name()), format!("{}: expected value {:?}, got {}", head, e.value, o.short()), case(o));
                     } else if o.log != e.log {
@@ -629,6 +664,12 @@ fn tree_has_default(dgm: &DG, t: &lang::Tree) -> bool {
     match t {
         lang::Tree::Tok(..) => false,
         lang::Tree::Node(n, a, c) => !dgm.alts[*n][*a].style.has_action() || c.iter().any(|x| tree_has_default(dgm, x)),
+    }
+}
+fn tree_has_kind(dgm: &DG, t: &lang::Tree, k: NtKind) -> bool {
+    match t {
+        lang::Tree::Tok(..) => false,
+        lang::Tree::Node(n, _, c) => dgm.kind(*n) == k || c.iter().any(|x| tree_has_kind(dgm, x, k)),
     }
 }
 fn tree_has_inlined(dgm: &DG, t: &lang::Tree) -> bool {
